@@ -3,6 +3,7 @@ CONSTANTS
   NameMask = 7
   Family = "lemma"
   MaxKeys = 2
+  MaxEdits = 1
   Defect = "none"
 INVARIANT OrderInv
 INVARIANT ShapeInv
